@@ -1,7 +1,7 @@
 (* C16 — proofs about the buffer-capacity view (Alloc.v). *)
 From Coq Require Import Lia Arith.
 From FoxBase Require Import Bytes.
-From FoxRoute Require Import Node Lookup Tree Alloc.
+From FoxRoute Require Import Node Lookup Tree Guard Alloc.
 Open Scope char_scope.
 
 (* ---------- 1. the instrumented functions compute M1 ---------- *)
@@ -940,7 +940,7 @@ Theorem cold_context_growth_only_skipnds : forall (t : txn) m host path stale,
   grow_sks (txn_caps t) (serve_marks (t_roots t) m host path stale).
 Proof.
   intros t m host path stale Hw. unfold grows, serve_marks.
-  destruct (params_bounded big_fuel t m host path false stale Hw) as [-> ->]. reflexivity.
+  destruct (params_bounded big_fuel t m (host_guard host) path false stale Hw) as [-> ->]. reflexivity.
 Qed.
 
 (* depth does NOT bound the skipped-node stack: every level of the descent can push two entries *)
